@@ -168,4 +168,12 @@ def run(ctx):
     ctx.evaluations = len(evs)
     for e in evs[:2] + evs[-3:]:
         ctx.sample(tc.describe(e))
+    if not quick:
+        # the repository's own 3592 tests as a trace source (recording plugin, no repository edits)
+        import recorded
+        rec = recorded.record(ctx, "types")
+        for e in rec:
+            e["id"] = "repo-" + e["id"]
+        evs += rec
+        ctx.evaluations = len(evs)
     tc.judge(ctx, "Trace_Types", evs)
